@@ -87,7 +87,12 @@ def run(t, budget=1.0):
         "random, counts 0/1/fill/fill-1/random, ranges empty/to-end/random), capacities 0..40, 250..261 (uint8 length limit "
         "254/255) and 65530..65539 (uint16 limit), arbitrary element bytes, up to 250 commands. "
         "non-trivial = sequence that executed >=2 different mutator overloads and used a boundary position (begin or end) "
-        "in a position-taking command; distinct by (type configuration, initial state, concrete command text).")
+        "in a position-taking command; distinct by (type configuration, initial state, concrete command text); enumerated "
+        "sequences are distinct by construction and counted, random ones are hashed. "
+        "Type matrix: 4 length types + uint8/maxValue=255 x 2 byte orders x 3 element types x 3 byte types = 74 instantiations "
+        "(50 before C++17); thorough: all of them in each of 10 compiler configurations; quick: each of the 3 compiler "
+        "configurations runs half of the matrix (the two C++17+ ones together all of it), dfs on 3 instantiations per binary. "
+        "distinct_nontrivial = maximum over the compiler configurations (+ the depth-3 enumeration, run once).")
     res.assumptions = [
         "dynamic_array_ref is constructed through the documented byte_range(Byte* ptr, std::size_t size) constructor it inherits "
         "(generated code uses the (begin,end) overload of the same class via get_dynamic_field_view)",
